@@ -310,6 +310,7 @@ def normal_form(e):
     e = sp.sympify(e)
     if e == 0:
         return sp.Integer(0)
+    e = canon_function_args(e)
     e = sp.expand(e)
     if e == 0:
         return sp.Integer(0)
@@ -318,3 +319,22 @@ def normal_form(e):
     if num == 0:
         return sp.Integer(0)
     return e
+
+
+def canon_function_args(e):
+    """arguments of uninterpreted / transcendental functions in cancelled p/q form, so that
+    f(t*c/(t*a)) and f(c/a) become the same term"""
+    from sympy.core.function import AppliedUndef
+    fn_types = (AppliedUndef, sp.acos, sp.asin, sp.atan, sp.sin, sp.cos, sp.tan, sp.exp, sp.sinc, sp.atan2)
+
+    def rec(x):
+        if not x.args:
+            return x
+        args = [rec(a) for a in x.args]
+        if isinstance(x, fn_types):
+            args = [sp.cancel(sp.together(a)) if not a.is_Atom else a for a in args]
+        try:
+            return x.func(*args)
+        except Exception:  # noqa: BLE001
+            return x
+    return rec(e)
